@@ -154,6 +154,10 @@ func c06Run(j *orch.Job, r *orch.Result) error {
 	add(&c06Case{Name: "C-underfunded-then-funded", Kind: "conversion", Fund: 50 * 1e8, Amount: 80 * 1e8, Conv: dst, At: []uint32{T, T + 3, T + 5}, Times: []int{1, 1, 1}, FundAt: T + 1, FundAmt: F, MustNotExec: true, Metamorphic: true})
 	add(&c06Case{Name: "C-underfunded-funded-before-next-rated", Kind: "conversion", Fund: 50 * 1e8, Amount: 80 * 1e8, Conv: dst, At: []uint32{T + 9}, Times: []int{1}, FundAt: T + 10, FundAmt: F, MustExecute: true, Metamorphic: true})
 	// closed destinations by era (rejected with a specific code, then repeated)
+	if p.Era == "bankpre" {
+		// entered in the last block before the conversion limit, executed in the first block under it
+		add(&c06Case{Name: "C-executes-at-limit-activation", Kind: "conversion", Fund: F, Amount: 30 * 1e8, Conv: dst, At: []uint32{e.ConversionLimit - 1, e.ConversionLimit + 1}, Times: []int{1, 1}, MustExecute: true, Metamorphic: true})
+	}
 	if T >= e.OneWaypFCT {
 		add(&c06Case{Name: "C-rejected-pFCT", Kind: "conversion", Fund: F, Amount: 30 * 1e8, Conv: fat2.PTickerFCT, At: []uint32{T, T + 2, T + 2}, Times: []int{1, 1, 1}, MustNotExec: true, Metamorphic: true})
 	}
@@ -170,15 +174,19 @@ func c06Run(j *orch.Job, r *orch.Result) error {
 		delete(m.ForceGraded, u)
 		m.ForceUngraded[u] = true
 	}
-	// fund the senders at T-4 (one batch per sender keeps entries small)
-	m.Schedule(T-4, func(v *gen.View, s *forge.BlockSpec) {
+	// fund the senders at T-4 (T-6 in the bankpre era, where one entry is written before T-4)
+	fundAt := T - 4
+	if p.Era == "bankpre" {
+		fundAt = T - 6
+	}
+	m.Schedule(fundAt, func(v *gen.View, s *forge.BlockSpec) {
 		var outs []forge.Out
 		var tot uint64
 		for _, c := range cases {
 			outs = append(outs, forge.Out{Addr: c.S.FA(), Amount: c.Fund})
 			tot += c.Fund
 		}
-		s.Tx = append(s.Tx, forge.SignedBatch([]forge.Tx{{From: whale.FA(), Asset: fat2.PTickerUSD, Amount: tot, To: outs}}, m.W.EntryTime(T-4), whale))
+		s.Tx = append(s.Tx, forge.SignedBatch([]forge.Tx{{From: whale.FA(), Asset: fat2.PTickerUSD, Amount: tot, To: outs}}, m.W.EntryTime(fundAt), whale))
 	})
 	repeatsAt := map[uint32]map[string]int{} // height → entry hash hex → copies beyond the first
 	for _, c := range cases {
